@@ -75,6 +75,10 @@ pub trait Harness: Sync {
     fn panic_is_violation(&self) -> bool {
         true
     }
+    /// panics that are another property's business (e.g. the sample_edge fall-through belongs to C06)
+    fn ignore_panic(&self, _msg: &str) -> bool {
+        false
+    }
     fn timeout_s(&self, tier: Tier) -> u32 {
         match tier {
             Tier::Quick => 30,
@@ -95,6 +99,10 @@ pub trait Harness: Sync {
         } else {
             f64::NAN
         }
+    }
+    /// pow encoding for cut justifications and definedness side conditions (Opaque: only y > 0 is known)
+    fn pow_for_side_conditions(&self) -> PowEnc {
+        PowEnc::Opaque
     }
     /// number of validation points
     fn n_validate(&self) -> usize {
@@ -204,6 +212,10 @@ fn rel_smt(rel: Rel, a: &str, b: &str, fp: bool) -> String {
     }
 }
 
+fn leaf_names_all(nodes: &[Node], roots: &[u32]) -> BTreeSet<String> {
+    vars_in_cone(nodes, roots)
+}
+
 fn leaf_names(nodes: &[Node], root: u32, cuts: &HashMap<u32, Cut>) -> BTreeSet<String> {
     cone(nodes, &[root], cuts)
         .into_iter()
@@ -247,16 +259,33 @@ fn lcg(s: &mut u64) -> f64 {
     ((*s >> 11) as f64) / ((1u64 << 53) as f64)
 }
 
-/// native run of the harness at a model
-pub fn native_run<H: Harness>(h: &H, model: &BTreeMap<String, f64>) -> Result<Outcome<f64>, String> {
-    let m: HashMap<String, f64> = model.iter().map(|(k, v)| (k.clone(), *v)).collect();
-    set_model(&m);
-    let out = RefCell::new(Outcome::<f64>::new());
-    let r = std::panic::catch_unwind(std::panic::AssertUnwindSafe(|| h.run::<f64>(&mut out.borrow_mut())));
-    match r {
-        Ok(()) => Ok(out.into_inner()),
-        Err(e) => Err(panic_msg(e)),
+/// native run of the harness at a model; variables missing from the model (the query was
+/// emitted with cuts) are filled with `sample_var` values drawn from `fill`.
+/// Returns the outcome recorded so far and the panic message, if any.
+pub fn native_run<H: Harness>(h: &H, model: &BTreeMap<String, f64>, fill: &mut u64) -> (Outcome<f64>, Option<String>, BTreeMap<String, f64>) {
+    let mut m: HashMap<String, f64> = model.iter().map(|(k, v)| (k.clone(), *v)).collect();
+    for _ in 0..4 {
+        set_model(&m);
+        MISSING.with(|c| c.borrow_mut().clear());
+        let out = RefCell::new(Outcome::<f64>::new());
+        let r = std::panic::catch_unwind(std::panic::AssertUnwindSafe(|| h.run::<f64>(&mut out.borrow_mut())));
+        let missing: Vec<String> = MISSING.with(|c| std::mem::take(&mut *c.borrow_mut()));
+        if !missing.is_empty() {
+            for v in missing {
+                let val = h.sample_var(&v, lcg(fill));
+                m.insert(v, val);
+            }
+            continue;
+        }
+        let full: BTreeMap<String, f64> = m.iter().map(|(k, v)| (k.clone(), *v)).collect();
+        // RefCell may still be mutably borrowed after a panic: recover the value regardless
+        let o = match out.try_borrow_mut() {
+            Ok(mut b) => std::mem::replace(&mut *b, Outcome::new()),
+            Err(_) => Outcome::new(),
+        };
+        return (o, r.err().map(panic_msg), full);
     }
+    (Outcome::new(), Some("SYMX-INTERNAL: could not complete the model".into()), BTreeMap::new())
 }
 
 fn assumes_hold(o: &Outcome<f64>) -> bool {
@@ -268,7 +297,7 @@ fn assumes_hold(o: &Outcome<f64>) -> bool {
     })
 }
 
-/// try to reproduce the failure of goal `name` natively at `model` (then at perturbations)
+/// try to reproduce the failure of goal `name` natively at `model` (then at perturbations / other fills)
 pub fn replay_goal<H: Harness>(h: &H, name: &str, model: &BTreeMap<String, f64>, seed: u64, twin: bool) -> Option<(BTreeMap<String, f64>, String)> {
     let mut s = seed ^ 0x9e3779b97f4a7c15;
     for attempt in 0..65 {
@@ -279,23 +308,26 @@ pub fn replay_goal<H: Harness>(h: &H, name: &str, model: &BTreeMap<String, f64>,
                 *v *= 1.0 + eps * (2.0 * lcg(&mut s) - 1.0);
             }
         }
-        match native_run(h, &m) {
-            Err(msg) => {
-                if msg.contains("SYMX-") {
-                    return None;
-                }
-                if name == "no-panic" {
-                    return Some((m, format!("panic: {}", msg.chars().take(200).collect::<String>())));
+        let (o, panic, full) = native_run(h, &m, &mut s);
+        if let Some(msg) = &panic {
+            if msg.contains("SYMX-") {
+                return None;
+            }
+        }
+        if !assumes_hold(&o) {
+            continue;
+        }
+        match panic {
+            Some(msg) => {
+                if name == "no-panic" && !h.ignore_panic(&msg) {
+                    return Some((full, format!("panic: {}", msg.chars().take(200).collect::<String>())));
                 }
             }
-            Ok(o) => {
-                if !assumes_hold(&o) {
-                    continue;
-                }
+            None => {
                 let gs = if twin { &o.twins } else { &o.goals };
                 for g in gs.iter().filter(|g| g.name == name) {
                     if let Some(d) = native_violation(g, h.tol()) {
-                        return Some((m, d));
+                        return Some((full, d));
                     }
                 }
             }
@@ -327,6 +359,7 @@ pub fn check_harness<H: Harness>(h: &H, cfg: &RunCfg) -> PartResult {
     let mut queries: Vec<Query> = vec![];
     let mut kinds: Vec<QKind> = vec![];
     let mut all_vars: BTreeSet<String> = BTreeSet::new();
+    let mut path_groups: HashMap<usize, usize> = HashMap::new();
 
     for (pi, p) in paths.iter().enumerate() {
         res.branch_decisions += p.taken.len();
@@ -378,11 +411,9 @@ pub fn check_harness<H: Harness>(h: &H, cfg: &RunCfg) -> PartResult {
             }
             v
         };
-        let conds_nocut = mk_conds(&nocuts);
-        let conds_cut = if cutmap.is_empty() { vec![] } else { mk_conds(&cutmap) };
-
         // builds one query: goal roots + relevant conditions (optionally only those below `below`)
-        let build = |roots: &[u32], cuts: &HashMap<u32, Cut>, conds: &Vec<Cond>, below: Option<u32>, neg_goal: Option<&dyn Fn(&Emitted) -> String>, all_conds: bool| -> (String, Vec<String>, Vec<(String, String, u32)>) {
+        let build = |roots: &[u32], cuts: &HashMap<u32, Cut>, below: Option<u32>, neg_goal: Option<&dyn Fn(&Emitted) -> String>, all_conds: bool, pow: Option<PowEnc>| -> (String, Vec<String>, Vec<(String, String, u32)>) {
+            let conds = mk_conds(cuts);
             let mut vars: BTreeSet<String> = BTreeSet::new();
             for &r in roots {
                 vars.extend(leaf_names(nodes, r, cuts));
@@ -399,7 +430,7 @@ pub fn check_harness<H: Harness>(h: &H, cfg: &RunCfg) -> PartResult {
                             continue;
                         }
                     }
-                    if all_conds || c.vars.iter().any(|v| vars.contains(v)) || (c.vars.is_empty() && false) {
+                    if all_conds || c.vars.iter().any(|v| vars.contains(v)) {
                         used[k] = true;
                         vars.extend(c.vars.iter().cloned());
                         changed = true;
@@ -418,12 +449,14 @@ pub fn check_harness<H: Harness>(h: &H, cfg: &RunCfg) -> PartResult {
             all_roots.extend(roots);
             let mut opts = base_opts.clone();
             opts.cuts = cuts.clone();
+            if let Some(pw) = pow {
+                opts.pow = pw;
+            }
             let e = emit(nodes, &all_roots, &opts);
             let asserts: Vec<String> = conds.iter().enumerate().filter(|(k, _)| used[*k]).map(|(_, c)| (c.smt)(&e)).collect();
             let ng = neg_goal.map(|f| f(&e));
             let mv: Vec<String> = e.vars.iter().cloned().collect();
             let text = build_query(&header, &e.text, &asserts, ng.as_deref(), &mv);
-            // obligations carry the node id in their description: "kind n<id>"
             let obl = e
                 .obligations
                 .iter()
@@ -435,11 +468,60 @@ pub fn check_harness<H: Harness>(h: &H, cfg: &RunCfg) -> PartResult {
             (text, mv, obl)
         };
 
-        // 1. feasibility of the path (all conditions)
-        let (text, mv, _) = build(&[], &nocuts, &conds_nocut, None, None, true);
-        all_vars.extend(mv.iter().cloned());
-        queries.push(Query { label: format!("{} path{} feasible", h.name(), pi), text, timeout_s: timeout, model_vars: mv, expect_sat: None });
-        kinds.push(QKind::Feasible { path: pi, panic: panic.clone() });
+        // 1. feasibility of the path: the conditions split into groups that share no variable;
+        //    each group is one query (cuts applied, opaque pow: an over-approximation, so `unsat`
+        //    soundly prunes the path and `sat` only means "treated as feasible").
+        {
+            let conds = mk_conds(&cutmap);
+            let mut comp: Vec<usize> = (0..conds.len()).collect();
+            fn root(c: &mut Vec<usize>, i: usize) -> usize {
+                let mut r = i;
+                while c[r] != r {
+                    r = c[r];
+                }
+                c[i] = r;
+                r
+            }
+            let mut owner: HashMap<String, usize> = HashMap::new();
+            for (k, c) in conds.iter().enumerate() {
+                for v in &c.vars {
+                    match owner.get(v) {
+                        Some(&o) => {
+                            let (a, b) = (root(&mut comp, o), root(&mut comp, k));
+                            comp[a] = b;
+                        }
+                        None => {
+                            owner.insert(v.clone(), k);
+                        }
+                    }
+                }
+            }
+            let mut groups: BTreeMap<usize, Vec<usize>> = BTreeMap::new();
+            for k in 0..conds.len() {
+                let r = root(&mut comp, k);
+                groups.entry(r).or_default().push(k);
+            }
+            let mut n_groups = 0;
+            for (_, members) in groups {
+                let mut roots: Vec<u32> = vec![];
+                for &k in &members {
+                    roots.extend(conds[k].nodes);
+                }
+                let mut opts = base_opts.clone();
+                opts.cuts = cutmap.clone();
+                opts.pow = h.pow_for_side_conditions();
+                opts.pow_le_one = true;
+                let e = emit(nodes, &roots, &opts);
+                let asserts: Vec<String> = members.iter().map(|&k| (conds[k].smt)(&e)).collect();
+                let mv: Vec<String> = e.vars.iter().cloned().collect();
+                all_vars.extend(leaf_names_all(nodes, &roots));
+                let text = build_query(&header, &e.text, &asserts, None, &mv);
+                queries.push(Query { label: format!("{} path{} feasible", h.name(), pi), text, timeout_s: timeout, model_vars: mv, expect_sat: None });
+                kinds.push(QKind::Feasible { path: pi, panic: panic.clone() });
+                n_groups += 1;
+            }
+            path_groups.insert(pi, n_groups);
+        }
         if panic.is_some() {
             continue;
         }
@@ -452,11 +534,11 @@ pub fn check_harness<H: Harness>(h: &H, cfg: &RunCfg) -> PartResult {
                 (None, Some(_)) => kind == 1, // twins use cuts when there are any
                 _ => false,
             };
-            let (cuts, conds) = if use_cuts { (&cutmap, &conds_cut) } else { (&nocuts, &conds_nocut) };
+            let cuts = if use_cuts { &cutmap } else { &nocuts };
             let (l, r, rel) = (g.lhs.0, g.rhs.0, g.rel);
             let ng = move |e: &Emitted| rel_smt(rel, e.n(l), e.n(r), fp);
             let no_vars = leaf_names(nodes, l, cuts).is_empty() && leaf_names(nodes, r, cuts).is_empty();
-            let (text, mv, obl) = build(&[l, r], cuts, conds, None, Some(&ng), no_vars);
+            let (text, mv, obl) = build(&[l, r], cuts, None, Some(&ng), no_vars, g.pow);
             queries.push(Query { label: format!("{} path{} {}", h.name(), pi, g.name), text, timeout_s: timeout, model_vars: mv, expect_sat: Some(kind == 1) });
             kinds.push(match kind {
                 0 => QKind::Goal { path: pi, name: g.name.clone() },
@@ -481,7 +563,9 @@ pub fn check_harness<H: Harness>(h: &H, cfg: &RunCfg) -> PartResult {
                 let node = c.node.0;
                 let con2 = con.clone();
                 let ng = move |e: &Emitted| con2.replace("{}", e.n(node));
-                let (text, mv, obl) = build(&[node], &nocuts, &conds_nocut, None, Some(&ng), false);
+                // cuts created earlier (smaller node index) may be used
+                let lower: HashMap<u32, Cut> = cutmap.iter().filter(|(k, _)| **k < node).map(|(k, v)| (*k, v.clone())).collect();
+                let (text, mv, obl) = build(&[node], &lower, None, Some(&ng), false, Some(h.pow_for_side_conditions()));
                 queries.push(Query { label: format!("{} path{} cut {} #{}", h.name(), pi, c.name, k), text, timeout_s: timeout, model_vars: mv, expect_sat: Some(false) });
                 kinds.push(QKind::CutJustify { path: pi, name: format!("cut {} {}", c.name, con) });
                 for (d, f, id) in obl {
@@ -522,7 +606,8 @@ pub fn check_harness<H: Harness>(h: &H, cfg: &RunCfg) -> PartResult {
                     1 => format!("(>= {} 0.0)", e.n(arg)),
                     _ => format!("(> {} 0.0)", e.n(arg)),
                 };
-                let (text, mv, _) = build(&[arg], &nocuts, &conds_nocut, Some(id), Some(&ng), false);
+                let lower: HashMap<u32, Cut> = cutmap.iter().filter(|(k, _)| **k < id).map(|(k, v)| (*k, v.clone())).collect();
+                let (text, mv, _) = build(&[arg], &lower, Some(id), Some(&ng), false, Some(h.pow_for_side_conditions()));
                 queries.push(Query { label: format!("{} path{} defined {}", h.name(), pi, d), text, timeout_s: timeout, model_vars: mv, expect_sat: Some(false) });
                 kinds.push(QKind::Defined { path: pi, desc: d });
             }
@@ -534,17 +619,68 @@ pub fn check_harness<H: Harness>(h: &H, cfg: &RunCfg) -> PartResult {
     res.queries_total = stats.total;
     res.queries_distinct = stats.distinct;
     res.solver_s = stats.solver_s;
+    // a path is infeasible if one of its condition groups is unsat, feasible if all are sat
     let mut feasible: HashMap<usize, bool> = HashMap::new();
-    for (k, v) in verdicts.iter().enumerate() {
-        if let QKind::Feasible { path, .. } = &kinds[k] {
-            match &v.answer {
-                Answer::Sat(_) => {
-                    feasible.insert(*path, true);
+    let mut path_models: HashMap<usize, BTreeMap<String, f64>> = HashMap::new();
+    let mut path_panic: HashMap<usize, String> = HashMap::new();
+    {
+        let mut sat_count: HashMap<usize, usize> = HashMap::new();
+        for (k, v) in verdicts.iter().enumerate() {
+            if let QKind::Feasible { path, panic } = &kinds[k] {
+                if let Some(m) = panic {
+                    path_panic.insert(*path, m.clone());
                 }
-                Answer::Unsat => {
-                    feasible.insert(*path, false);
+                match &v.answer {
+                    Answer::Sat(m) => {
+                        *sat_count.entry(*path).or_insert(0) += 1;
+                        path_models.entry(*path).or_default().extend(m.clone());
+                    }
+                    Answer::Unsat => {
+                        feasible.insert(*path, false);
+                    }
+                    Answer::Unknown(r) => res.inconclusive.push(format!("{}: {}", queries[k].label, r)),
                 }
-                Answer::Unknown(_) => {}
+            }
+        }
+        for (p, n) in &path_groups {
+            if feasible.get(p) == Some(&false) {
+                continue;
+            }
+            if sat_count.get(p).copied().unwrap_or(0) == *n {
+                feasible.insert(*p, true);
+            }
+        }
+        // paths without any condition are trivially feasible
+        for p in 0..paths.len() {
+            if path_groups.get(&p) == Some(&0) {
+                feasible.insert(p, true);
+            }
+        }
+    }
+    for p in 0..paths.len() {
+        match feasible.get(&p) {
+            Some(true) => res.paths_feasible += 1,
+            Some(false) => res.paths_infeasible += 1,
+            None => {}
+        }
+    }
+    // feasible panic paths
+    for (p, msg) in &path_panic {
+        if feasible.get(p) != Some(&true) {
+            continue;
+        }
+        res.paths_panic_feasible += 1;
+        if h.panic_is_violation() && !h.ignore_panic(msg) {
+            let m = path_models.get(p).cloned().unwrap_or_default();
+            match replay_goal(h, "no-panic", &m, cfg.seed, false) {
+                Some((m2, d)) => res.violations.push(Violation {
+                    goal: "no-panic".into(),
+                    site: h.name(),
+                    witness_class: classify_panic(msg),
+                    desc: d,
+                    replay: json!({"harness": h.name(), "goal": "no-panic", "model": m2}),
+                }),
+                None => res.hard_failures.push(format!("{} path{}: feasible panic path ({}) did not reproduce natively", h.name(), p, msg.chars().take(80).collect::<String>())),
             }
         }
     }
@@ -562,29 +698,12 @@ pub fn check_harness<H: Harness>(h: &H, cfg: &RunCfg) -> PartResult {
             }
         }
         match (&kinds[k], &v.answer) {
-            (QKind::Feasible { path: _, panic }, Answer::Sat(m)) => {
-                res.paths_feasible += 1;
-                if first_model.is_none() && panic.is_none() {
-                    first_model = Some(m.clone());
-                }
-                if let Some(msg) = panic {
-                    res.paths_panic_feasible += 1;
-                    if h.panic_is_violation() {
-                        match replay_goal(h, "no-panic", m, cfg.seed, false) {
-                            Some((m2, d)) => res.violations.push(Violation {
-                                goal: "no-panic".into(),
-                                site: h.name(),
-                                witness_class: classify_panic(msg),
-                                desc: d,
-                                replay: json!({"harness": h.name(), "goal": "no-panic", "model": m2}),
-                            }),
-                            None => res.hard_failures.push(format!("{}: feasible panic path ({}) did not reproduce natively", q.label, msg.chars().take(80).collect::<String>())),
-                        }
-                    }
+            (QKind::Feasible { path, panic }, Answer::Sat(_)) => {
+                if first_model.is_none() && panic.is_none() && feasible.get(path) == Some(&true) {
+                    first_model = path_models.get(path).cloned();
                 }
             }
-            (QKind::Feasible { .. }, Answer::Unsat) => res.paths_infeasible += 1,
-            (QKind::Feasible { .. }, Answer::Unknown(r)) => res.inconclusive.push(format!("{}: {}", q.label, r)),
+            (QKind::Feasible { .. }, _) => {}
             (QKind::Goal { path, name }, ans) | (QKind::CutJustify { path, name }, ans) => {
                 if feasible.get(path) == Some(&false) {
                     continue; // infeasible path: nothing to prove
@@ -677,8 +796,13 @@ fn classify_panic(msg: &str) -> String {
 /// run the harness symbolically along the path the concrete point takes and compare every
 /// goal side (evaluated numerically from the DAG) with the native T=f64 run.
 pub fn validate_at<H: Harness>(h: &H, model: &BTreeMap<String, f64>) -> Result<usize, String> {
-    let native = native_run(h, model);
-    let m2: HashMap<String, f64> = model.iter().map(|(k, v)| (k.clone(), *v)).collect();
+    let mut fill = 99u64;
+    let (no, npanic, full) = native_run(h, model, &mut fill);
+    let native: Result<Outcome<f64>, String> = match npanic {
+        Some(m) => Err(m),
+        None => Ok(no),
+    };
+    let m2: HashMap<String, f64> = full.iter().map(|(k, v)| (k.clone(), *v)).collect();
     // guided run: decisions taken by evaluating atoms numerically
     let mut prefix: Vec<bool> = vec![];
     let cfgx = ExploreCfg { mode: h.mode(), ..Default::default() };
